@@ -135,6 +135,31 @@ def zk_requirements(tree, appname):
     return part, need
 
 
+def _units(text, suffix):
+    text = str(text).strip()
+    return float(text[:-1]) if text.endswith(suffix) else float(text)
+
+
+def _model_matches_record(master, srv, rec):
+    """The server object the running master holds still describes what the
+    stored record says: capacity, partition and trait NAMES (decoded with
+    the running master's own table, so that neither the numbering nor the
+    new master is trusted).  World-B records spell sizes in M and cpu in %."""
+    try:
+        cap = [_units(rec['memory'], 'M'), _units(rec['cpu'], '%'),
+               _units(rec['disk'], 'M')]
+    except (KeyError, ValueError):
+        return False
+    if [float(x) for x in srv.init_capacity] != cap:
+        return False
+    if {str(l) for l in srv.labels} != {rec.get('partition') or '_default'}:
+        return False
+    mask = srv.traits.self_traits
+    names = {t for t, c in master.trait_codes.items()
+             if t != 'invalid' and mask & c}
+    return names == set(rec.get('traits', []))
+
+
 def check_c11(world):
     """Start a fresh master on a copy of the stored state, load_model() only,
     compare with what is recorded under healthy servers."""
@@ -160,7 +185,10 @@ def check_c11(world):
             continue
         osrv = old.servers.get(s)
         nsrv = m2.servers.get(s)
-        if osrv is None or nsrv is None or not osrv.is_same(nsrv):
+        rec0 = json.loads(srv_records[s].decode()) if srv_records.get(s) \
+            else None
+        if osrv is None or nsrv is None or rec0 is None or \
+                not _model_matches_record(old, osrv, rec0):
             continue
         # ... and the partition and traits this instance needs NOW (its
         # assignment may have changed since it was placed)
